@@ -245,7 +245,7 @@ class sptensor:
         nonzeros = int(nonzeros)
 
         # Keep iterating until we find enough unique nonzeros or we give up
-        subs = np.array([])
+        subs = np.empty((0, len(shape)), dtype=int)
         cnt = 0
         while (len(subs) < nonzeros) and (cnt < 10):
             subs = (
